@@ -622,6 +622,10 @@ def setup_path(case):
             car = gen_carriers(random.Random(case['cseed']), bands, case['nch'], pmin_dbm=-3.0, pmax_dbm=3.0)
         else:
             car = gen_carriers(random.Random(case['cseed']), bands, case['nch'], pmax_dbm=case['pmax_dbm'])
+        if car and case.get('high_power'):
+            hp = random.Random(case['cseed'] + 1)
+            for c in car:
+                c['tx_power'] = 10 ** (hp.uniform(*case['high_power']) / 10) * 1e-3
         if car and case.get('mb'):
             # a power offset of several dB between the L-band and the C-band partition (offsets are applied on top of the
             # ROADM target, so they survive the equalisation)
